@@ -257,6 +257,15 @@ def merge_operator_tokens(
             if pooled_token:
                 yield pooled_token
                 pooled_token = None
+            if (
+                token.kind is Token.Kind.OPERATOR
+                and symbols
+                and token.token[-1] in symbols
+            ):
+                # e.g. "~+": cannot be merged to the left, but its trailing
+                # symbol can still be merged with operators to its right.
+                pooled_token = token
+                continue
             yield token
             continue
 
